@@ -4,8 +4,8 @@ TIER=${1:-quick}; JOBS=${2:-}
 cd /verif
 for id in $(/venv/bin/python -c "import json;print(' '.join(c['property_id'] for c in json.load(open('MANIFEST.json'))['checks']))"); do
   s=$(date +%s)
-  out=$(./check $id $TIER ${JOBS:+--jobs $JOBS} 2>&1 | grep -v "^WARN")
-  rc=$?
+  out=$(./check $id $TIER ${JOBS:+--jobs $JOBS} 2>&1; echo "RC=$?")
+  rc=$(echo "$out" | sed -n 's/^RC=//p' | tail -1)
   e=$(date +%s)
   echo "$id rc=$rc $((e-s))s :: $(echo "$out" | grep "^\[$id" | cut -c1-160)"
   echo "$out" | grep "^VIOLATION\|^KNOWN-FINDING\|^HARNESS" | cut -c1-220
